@@ -71,9 +71,11 @@ let dump ic id (x : xstate) : Stdlib.String.t =
   let d = if id then Printf.sprintf "d:%d,%d,%d,%d,%d,%d,%d,%d,%d,%d,%d" (geti s (fD "global_state")) (geti s (fD "marker->saw_SOI"))
             (geti s (fD "marker->saw_SOF")) (geti s (fD "unread_marker")) (geti s (fD "master->lossless")) (geti s (fD "arith_code"))
             (geti s (fD "progressive_mode")) (mask s dmask_f) (if geti s (fD "progress") <> 0 then 1 else 0)
-            (if geti s (fT "tempICCSize") <> 0 then 1 else 0) (geti s (fD "master->using_merged_upsample"))
+            (if geti s (fT "tempICCSize") <> 0 && geti s (fT "tempICCBuf") <> 0 then 1 else 0) (geti s (fD "master->using_merged_upsample"))
           else "d:-" in
-  c ^ " " ^ d ^ " p:" ^ String.concat "," (List.map (fun f -> string_of_int (geti s f)) pfields)
+  let m = Printf.sprintf "m:%d,%d,%d,%d" (geti s (fC "mem->image_space_small")) (geti s (fC "mem->image_space_large"))
+            (geti s (fD "mem->image_space_small")) (geti s (fD "mem->image_space_large")) in
+  c ^ " " ^ d ^ " " ^ m ^ " p:" ^ String.concat "," (List.map (fun f -> string_of_int (geti s f)) pfields)
 
 let okh_cache : (Stdlib.String.t, bool) Hashtbl.t = Hashtbl.create 64
 let okh k kname = match Hashtbl.find_opt okh_cache kname with Some b -> b | None -> let b = ok_hist faithful k in Hashtbl.add okh_cache kname b; b
